@@ -101,7 +101,14 @@ def make_callers(procs):
     add("nobody-longA", e2e.NOBODY_UID, pid, path, cmd)
     pid, path, cmd = procs.spawn("tool", [long_prefix + "-exporter", "600"])
     add("nobody-longB", e2e.NOBODY_UID, pid, path, cmd)
+    # a crowd: 110 processes of one binary with distinct command lines (one summary entry each)
+    for i in range(110):
+        pid, path, cmd = procs.spawn("tool", ["crowd-%03d" % i, "600"])
+        add("crowd-%03d" % i, e2e.NOBODY_UID, pid, path, cmd)
     return pool
+
+
+CROWD = ["crowd-%03d" % i for i in range(110)]
 
 
 def resolve(caller, result):
@@ -147,7 +154,7 @@ def gen_rules(rng, callers, mode=None):
 
 
 def gen_history(rng, idx, pool, concurrent):
-    names = list(pool)
+    names = [n for n in pool if not n.startswith("crowd-")]
     k = rng.randint(1, 4)
     chosen = rng.sample(names, k)
     if rng.random() < 0.25 and not concurrent:
@@ -565,7 +572,10 @@ def run(ctx):
                         concurrent=True, rules=imds("enforce"), burst=True)
         burst_a = fixed(990005, [{"id": i + 1, "caller": "root-helper", "dest": IMDS, "reqs": [get0] * 2} for i in range(nburst // 2)],
                         concurrent=True, rules=imds("audit"), burst=True)
-        hs = [finalize(h) for h in [f8, longs, flips, burst_e, burst_a] + hs]
+        # more distinct denied callers than any plausible "top N" cut of the published summary: status.json shows them all
+        crowd = fixed(990006, [{"id": i + 1, "caller": n, "dest": WIRESERVER if i % 2 else HOSTGA, "reqs": [get0] * (1 + i % 3)}
+                               for i, n in enumerate(CROWD)])
+        hs = [finalize(h) for h in [f8, longs, flips, burst_e, burst_a, crowd] + hs]
 
         def run_batch(batch, env=None, shards=None):
             scs, refmap = [], {}
@@ -648,6 +658,8 @@ def run(ctx):
             if me != ie:
                 disagreements.append({"case": case, "model": {"failed_summary": sorted(me.items())}, "impl": sorted(ie.items())})
             sj = r.get("status_json")
+            if h["idx"] == 990006 and (sj is None or "error" in sj):
+                disagreements.append({"case": case, "model": "status.json readable for the 110-caller history", "impl": sj})
             if sj is not None and "error" not in sj:
                 stats["status_json_reads"] += 1
                 if impl_entries(sj["failed"]) != me:
@@ -675,7 +687,7 @@ def run(ctx):
                                         for h in hs for c in h["conns"] for rq in c["reqs"] if c["dest"] in ENDPOINT_KEY and rq["rules"][ENDPOINT_KEY[c["dest"]]] is not None}),
             "traces_validated_against_impl": total - len({json.dumps(d["case"].get("name"), sort_keys=True) for d in disagreements}),
             "rule": "histories of 5-60 requests on 1-8 connections (sequential, with rule changes and summary clears between connections) or 4 "
-                    "concurrent keep-alive connections, 1-4 callers out of 10 (root/nobody/no-such-user x driver/sleep/custom executables, two of "
+                    "concurrent keep-alive connections, 1-4 callers out of 10 (plus one fixed history with 110 distinct denied callers) (root/nobody/no-such-user x driver/sleep/custom executables, two of "
                     "them colliding under a space-joined key), destinations WireServer/HostGAPlugin/IMDS/other/self, per-endpoint rule "
                     "documents (mode enforce/audit/disabled in several spellings, default allow/deny, optional privileges/roles/identities) or no "
                     "rules; evaluations = requests; non-trivial = distinct (caller, destination, request, rule documents) with rules in force "
